@@ -550,7 +550,10 @@ def run(ctx, config='rel-all'):
             ctx.violation('R5', fn, 'realloc-result-dropped', '%s (re)allocates the buffer but does not store the returned pointer into self.ptr: after the arena moved the block the vector would keep using the old address' % fn, b.get('span'))
     ctx.floor('R5', n5, 4, 'RawVec functions that (re)allocate')
     check_unwind_consistency(ctx, db)
-    from . import drainfilter, splice, c19
+    from . import drainfilter, splice, c19, forwarding, glue
+    # ---- R8 comparison / hashing / formatting / indexing / borrow impls hand the whole contents to the slice impl; R9 compositions
+    forwarding.check(ctx, config, 'R8', 'vec::Vec', 20)
+    glue.check_vec(ctx, config, 'R9')
     drainfilter.check(ctx, config, 'O3')
     splice.check(ctx, config, 'O4')
     # ---- R7 std's RawVec/Vec compute every byte size / capacity with checked arithmetic (CapacityOverflow instead of a wrapped size);
